@@ -1,5 +1,7 @@
 pub mod common;
 pub mod c01;
+pub mod c07;
+pub mod c11;
 pub mod manip;
 
 use crate::engine::Monitor;
@@ -10,5 +12,7 @@ pub fn all() -> Vec<Box<dyn Monitor>> {
         Box::new(manip::Manip(manip::Which::C04)),
         Box::new(manip::Manip(manip::Which::C05)),
         Box::new(manip::Manip(manip::Which::C06)),
+        Box::new(c07::C07),
+        Box::new(c11::C11),
     ]
 }
